@@ -296,7 +296,7 @@ def run(ctx):
     lpdump.install()
     ctx.rule = ("kLeastAbsErrors on random DAGs (<= 6 nodes) with arbitrary non-negative weights (perturbed superpositions or random values; int / dyadic float), "
                 "k in 1..3, ignore sets, error_scaling incl. 0 and 1/2, additional starts/ends, subpath constraints, solution_weights_superset, edge and node origin; "
-                "tiny stream: <= 6 edges, weights <= 4, integer type, compared with the exhaustive optimum; cyclic stream: kLeastAbsErrorsCycles on <= 5-node digraphs; deterministic cyclic families with closed-form optimum (chain with a zero-flow SCC 1..4 hops from the heavy edge, fractional perfect decompositions needing r+1 traversals, loops whose largest weight / repetition cap is a power of two). "
+                "tiny stream: <= 6 edges, weights <= 4, integer type, compared with the exhaustive optimum; cyclic stream: kLeastAbsErrorsCycles on <= 5-node digraphs; deterministic cyclic families with closed-form optimum (chain with a zero-flow SCC 1..4 hops from the heavy edge, fractional perfect decompositions needing r+1 traversals, loops whose largest weight / repetition cap is a power of two, several heavy cycles through ONE hub vertex). "
                 "non-trivial = LP has more than 8 rows (at least one product block and error rows) / graph has a cycle")
     for wfun in (witness_12, witness_6):
         try:
